@@ -32,6 +32,9 @@ thread_local! {
     /// which key the cells use: 0 = images in shards (1, 2) of 3; 1 = both images in the last shard (secondary = shard 0 by
     /// the wrapping fix-up); 2 = both images in the first shard (secondary = shard 1 by the fix-up)
     pub static KEY_VARIANT: std::cell::Cell<u8> = const { std::cell::Cell::new(0) };
+    /// the first two read-only levels are one and the same directory, seen once as a plain and once as a sharded cache
+    /// (or under two shard counts): applies to cells whose first two read-only levels differ in kind
+    pub static ALIASED_READERS: std::cell::Cell<bool> = const { std::cell::Cell::new(false) };
     /// an fsx controller to install for the duration of the operation
     pub static CONTROLLER: std::cell::RefCell<Option<Arc<dyn shim::Controller>>> = const { std::cell::RefCell::new(None) };
 }
@@ -253,11 +256,19 @@ pub fn all_contents(front: Front) -> Vec<Content> {
     }
 }
 
+/// Two levels that can be views of one directory without their copies colliding: a plain one and a genuinely sharded one.
+pub fn aliasable(a: Front, b: Front) -> bool {
+    matches!((a, b), (Front::Plain, Front::Sharded(n)) | (Front::Sharded(n), Front::Plain) if n >= 2)
+}
+
 pub fn run_cell(cell: &Cell) -> CellRun {
     run::reset_env();
     let sc = Scratch::new();
     let nread = cell.readers.len();
-    let dirs = Dirs::under(&sc.root, nread);
+    let mut dirs = Dirs::under(&sc.root, nread);
+    if ALIASED_READERS.with(|a| a.get()) && nread >= 2 && aliasable(cell.readers[0], cell.readers[1]) {
+        dirs.reads[1] = dirs.reads[0].clone();
+    }
     let old = if FUTURE_DATED.with(|f| f.get()) {
         run::base_time_ns() as i128 + 86_400_000_000_000
     } else {
